@@ -42,7 +42,7 @@ const BATCH: usize = 400;
 
 /// `MAX_PREALLOC_BYTES` of src/util/serdes.rs (crate-private: read from the source with a strict grammar);
 /// 0 when the tree has no such constant (the pinned, unrepaired tree: lengths from the wire are trusted)
-fn max_prealloc() -> u64 {
+pub fn max_prealloc() -> u64 {
     let path = format!("{}/src/util/serdes.rs", env!("CG_REPO"));
     let src = std::fs::read_to_string(&path).unwrap_or_default();
     for l in src.lines() {
